@@ -190,6 +190,14 @@ def loader_clause(model, rep, funcs):
             bl: dict = {}
             ok, why = ML.all_of(["for $i in range(n_set):\n    ...", "$a, $b = $h[$i]",
                                  "$fr, $fs = _utils.fourier_shell_correlation($a * $m, $b * $m, dfreq=$$df)"], bl)
+            if not ok:
+                # the same pairing with the splits iterated directly: `for a, b in halves` (loop or comprehension)
+                for alt in (["[_utils.fourier_shell_correlation($a * $m, $b * $m, dfreq=$$df) for $a, $b in $h]"],
+                            ["for $a, $b in $h:\n    ...", "_utils.fourier_shell_correlation($a * $m, $b * $m, dfreq=$$df)"]):
+                    bl = {}
+                    ok, why = ML.all_of(alt, bl)
+                    if ok:
+                        break
             det = why or f"fourier_shell_correlation({a0}, {a1}, ...)"
             if ok:
                 # the half-maps come from average_split of this loader, the sampling step from the dfreq argument
